@@ -367,6 +367,13 @@ func (v *Value) Contains(other *Value) bool {
 	case reflect.Slice, reflect.Array:
 		for i := 0; i < baseValue.Len(); i++ {
 			item := baseValue.Index(i)
+			if inner, ok := item.Interface().(*Value); ok && inner != nil {
+				// an item of a list written in the template
+				if other.EqualValueTo(inner) {
+					return true
+				}
+				continue
+			}
 			if other.EqualValueTo(AsValue(item.Interface())) {
 				return true
 			}
